@@ -20,6 +20,12 @@ class _G:
     def edges(self):
         return [self._edges[i] for i in self._order]
 
+    def number_of_edges(self):
+        return len(self._edges)
+
+    def number_of_nodes(self):
+        return len(self._nodes)
+
 
 class _Model:
     pass
@@ -107,6 +113,12 @@ _CURATED = [
     {("S", "a"): 1, ("a", "b"): 1, ("b", "c"): 1, ("c", "a"): 1, ("a", "T"): 1, ("a", "a"): 1, ("b", "d"): 1, ("d", "b"): 1, ("c", "c"): 1},
     {("S", "a"): 1, ("a", "b"): 1, ("b", "a"): 1, ("a", "e"): 1, ("e", "T"): 1, ("a", "c"): 1, ("c", "a"): 1, ("b", "d"): 1, ("d", "b"): 1, ("e", "e"): 1},
 ]
+# one closed sub-walk with more traversals than the graph has edges (the graph is restricted to the used edges: 6 edges, 9 traversals in the closed walk at `a`)
+_CURATED_RESTRICTED = [
+    {("S", "a"): 1, ("a", "T"): 1, ("a", "b"): 1, ("b", "c"): 4, ("c", "b"): 3, ("c", "a"): 1},
+    {("S", "a"): 1, ("a", "T"): 1, ("a", "b"): 1, ("b", "c"): 2, ("c", "b"): 1, ("c", "c"): 5, ("c", "a"): 1},
+    {("S", "a"): 1, ("a", "T"): 1, ("a", "a"): 9},
+]
 
 
 def cases(tier):
@@ -120,6 +132,9 @@ def cases(tier):
     for mult in _CURATED:
         inner = sorted({v for e in mult for v in e if v not in ("S", "T")})
         yield dict(inner=inner, mult=[[list(e), c] for e, c in sorted(mult.items())], fam="trunk-revisit")
+    for mult in _CURATED_RESTRICTED:
+        inner = sorted({v for e in mult for v in e if v not in ("S", "T")})
+        yield dict(inner=inner, mult=[[list(e), c] for e, c in sorted(mult.items())], fam="long-closed-walk", restrict=True)
     # the all-zero assignment and a layer that uses nothing
     yield dict(inner=["x0", "x1"], mult=[], zero=True)
 
@@ -130,6 +145,8 @@ def check(case):
     S, T = "S", "T"
     mult = {tuple(e): c for e, c in case["mult"]}
     all_edges = [(S, v) for v in inner] + [(v, T) for v in inner] + [(u, v) for u in inner for v in inner]
+    if case.get("restrict"):
+        all_edges = [e for e in all_edges if mult.get(e, 0) > 0]          # the graph has exactly the used edges
     used = [e for e in all_edges if mult.get(e, 0) > 0]
     has_cycle = sum(mult.values()) > len(set(a for a, b in mult)) if mult else False
     # every ordering of the edge list changes the order inside each adjacency list; restrict to orderings of the USED edges (others add nothing)
@@ -179,6 +196,23 @@ def check(case):
                         detail=dict(dropped=dropped, invented=invented))
         if any(v in (S, T) for v in w):
             return dict(ok=False, nontrivial=True, fingerprint="reconstructed walk contains the synthetic source/sink", what="walk %s" % (w,))
+        if n_orders == 1 and not case.get("zero"):
+            # k = 2: an all-zero layer in front of (behind) the used layer must give an empty walk there and the same walk for the used layer
+            for zero_layer in (0, 1):
+                m2 = _fresh_model()
+                m2.G = m.G
+                m2.k = 2
+                used_layer = 1 - zero_layer
+                m2.edge_vars_sol = {(str(u), str(v), used_layer): float(c) for (u, v), c in mult.items()}
+                m2.edge_vars_sol.update({(str(u), str(v), used_layer): 0.0 for (u, v) in all_edges if (u, v) not in mult})
+                m2.edge_vars_sol.update({(str(u), str(v), zero_layer): 0.0 for (u, v) in all_edges})
+                m2._build_residual_graph_for_layer = lambda i, m2=m2: A._build_residual_graph_for_layer(m2, i)
+                m2._reconstruct_eulerian_walk = lambda rg, i, m2=m2: A._reconstruct_eulerian_walk(m2, rg, i)
+                m2._build_closed_walk_from_vertex = lambda g, v, st, m2=m2: A._build_closed_walk_from_vertex(m2, g, v, st)
+                w2 = A.get_solution_walks(m2)
+                if len(w2) != 2 or w2[zero_layer] != [] or list(w2[used_layer]) != list(w):
+                    return dict(ok=False, nontrivial=True, fingerprint="with an all-zero layer next to a used layer the walks are not (empty walk, the used layer's walk)",
+                                what="zero layer %d: walks %s, expected the used layer's walk %s | mult=%s" % (zero_layer, w2, w, sorted(mult.items())))
     return dict(ok=True, nontrivial=bool(has_cycle), detail=dict(orders=n_orders))
 
 
